@@ -100,13 +100,34 @@ Proof.
 Qed.
 
 (* ================= the helper predicates of en.py, in closed form ================= *)
+(* The translator inlines the private helpers (_is_modifier, _is_punct, _is_type_raised) into the decision tree of every
+   function that calls them, so there are no generated definitions to characterise.  The closed forms below are what the
+   per-combinator evaluation lemmas of EnSound.v / EnPure.v are stated with; those lemmas are proved by running the
+   generated tree on every constructor shape of the inputs (`crunch`), whatever the tree looks like. *)
+Ltac step := cbn [bind is_fun left_of right_of base_of feature_of functor_of first_is_ascii_letter negb].
+Ltac atomic_of c :=
+  lazymatch c with
+  | andb ?a _ => atomic_of a
+  | orb ?a _ => atomic_of a
+  | negb ?a => atomic_of a
+  | _ => constr:(c)
+  end.
+(* closed texts of the specification, written as the code points the generated file contains *)
+Ltac norm_lits :=
+  repeat match goal with
+  | |- context [map show ?l] => let v := eval vm_compute in (map show l) in change (map show l) with v
+  | |- context [show ?c] => is_const c; let v := eval vm_compute in (show c) in change (show c) with v
+  end.
+Ltac crunch :=
+  norm_lits;
+  repeat first
+    [ reflexivity
+    | match goal with H1 : ?a = true, H2 : ?b = false |- _ => exfalso; exact (diff_true_false (eq_trans (eq_sym H1) H2)) end
+    | progress (step; cbn [andb orb negb])
+    | match goal with |- context [if ?c then _ else _] => let a := atomic_of c in destruct a eqn:? end ].
+(* (the second line closes a path on which one test was split twice because it occurs in two convertible spellings) *)
 Definition modifierb (x : cat) : bool := match x with Fun l _ r => cat_eqb l r | Atom _ _ => false end.
-Lemma is_modifier_char x : is_modifier x = Ok_ (modifierb x).
-Proof. destruct x; reflexivity. Qed.
-
 Definition type_raisedb (x : cat) : bool := match x with Fun l _ (Fun rl _ _) => cat_eqb rl l | _ => false end.
-Lemma is_type_raised_char x : is_type_raised x = Ok_ (type_raisedb x).
-Proof. destruct x as [b f | l s [b f | rl s' rr]]; reflexivity. Qed.
 Lemma type_raisedb_ok x : type_raisedb x = true <-> type_raised x.
 Proof.
   unfold type_raised. split.
@@ -121,17 +142,6 @@ Definition punctb (x : cat) : bool :=
   | Atom b _ => match b with c :: _ => negb (letterb c) || text_in b [n_LRB; n_RRB; n_LQU; n_RQU] | [] => false end
   | Fun _ _ _ => false
   end.
-Lemma is_punct_char x : match x with Atom [] _ => is_punct x = Err IndexErr | _ => is_punct x = Ok_ (punctb x) end.
-Proof.
-  destruct x as [[|c b] f | l s r]; try reflexivity.
-  unfold is_punct, punctb. cbn [bind is_fun base_of first_is_ascii_letter]. fold (letterb c).
-  destruct (negb (letterb c)); reflexivity.
-Qed.
-Lemma is_punct_wf x : wf puncts x -> is_punct x = Ok_ (punctb x).
-Proof.
-  intros H. pose proof (is_punct_char x) as Hc. destruct x as [[|c b] f | l s r]; try exact Hc.
-  cbn [wf] in H. destruct H as [[H _] _]. congruence.
-Qed.
 Lemma letterb_ok c : letterb c = true <-> ascii_letter c.
 Proof.
   unfold letterb, ascii_letter. rewrite orb_true_iff, !andb_true_iff, !N.leb_le. tauto.
